@@ -80,11 +80,23 @@ Definition lift {A} (r : res A) (f : A -> option block * N * N) : res (option bl
 Definition model_step (fixed : bool) (o : op) (b : block) (bx by_ bz : Z) (go : step) : res (option block) * N * N :=
   match o with
   | OMerge target merged =>
-    (* the slot Go re-used when the target was absent: where the target now sits *)
+    (* the slot Go re-used when the target was absent: the slot the merged indices were redirected
+       to in SBIndices; if no sub-block refers to a merged slot, the slot where the target now sits
+       (with target 0 all merged slots read 0, so the table alone would not tell) *)
+    let mi := merged_indices (b_labels b) merged in
     let choice := match s_bytes go with
-                  | Ok (Some bs) => match unmarshal bs with
-                                    | Ok b' => match index_of target (b_labels b') with Some i => i | None => 0 end
-                                    | _ => 0 end
+                  | Ok (Some bs) =>
+                    match unmarshal bs with
+                    | Ok b' =>
+                      match find (fun p : N * N => mem (fst p) mi) (combine (b_idx b) (b_idx b')) with
+                      | Some p => snd p
+                      | None => match find (fun p : N * N => mem (fst p) mi && (snd p =? target))
+                                           (combine (nseq (N.of_nat (length (b_labels b')))) (b_labels b')) with
+                                | Some p => fst p
+                                | None => 0
+                                end
+                      end
+                    | _ => 0 end
                   | _ => 0 end in
     lift (merge_labels b target merged choice) (fun b' => (Some b', 0, 0))
   | OReplace target newLabel => lift (replace_label fixed b target newLabel) (fun p => (Some (fst p), snd p, 0))
